@@ -20,6 +20,10 @@ class S(System):
             self.model.log.append(("model.timestep differs", self.model.timestep))
 
 
+class SysId(str):
+    pass
+
+
 def _make(kind, m, f, start, end):
     """the system kinds the framework ships, each built the way its signature invites; every kind logs its runs"""
     from ECAgent.Collectors import Collector, AgentCollector, FileCollector
@@ -28,6 +32,8 @@ def _make(kind, m, f, start, end):
         self.model.log.append((self.id, self.model.systems.timestep))
     if kind == 'system':
         return S("s", m, frequency=f, start=start, end=end)
+    if kind == 'str_subclass_id':        # an identifier that is a string without being exactly `str` (enum member, numpy.str_)
+        return S(SysId("s"), m, frequency=f, start=start, end=end)
     if kind == 'positional':
         return S("s", m, 0, f, start, end)
     if kind == 'collector':
@@ -415,7 +421,7 @@ def obligations(tier):
                {"steps": 3, "f": [2, 1], "third": [-1, 4, 2, 1]}, {"steps": 3, "f": [4, 2], "third": [0, 0, 1, 2]}]
     return [
         X("window", window, parts=[{"kind": k} for k in ("system", "positional", "collector", "collector_positional",
-                                                         "agent_collector", "file_collector")] + [{"kind": "system", "via": v} for v in ("execute_systems", "alias")],
+                                                         "agent_collector", "file_collector", "str_subclass_id")] + [{"kind": "system", "via": v} for v in ("execute_systems", "alias")],
           labels=("runs", "skips"), timeout=120, encoded=enc + (System.__init__,),
           bounds={"start,end,frequency,timestep": "all ints, frequency >= 1",
                   "system kinds": "System, Collector, AgentCollector, FileCollector (window passed by keyword / positionally)"}),
